@@ -40,6 +40,7 @@ CONSTANTS
     Variant,    \* [literal -> [upper |-> .., enc |-> ..]] other spellings of literal segments
     EffectOf,   \* [operationId -> observable effect label]
     Methods, Spellings, MaxSpell,
+    UiModes,    \* subset of BOOLEAN: server built with SWAGGER_UI unset (FALSE) / set (TRUE)
     HdrCross,   \* TRUE: the header classes below are crossed with the documented spelling of every template
     Stacks      \* which handler stacks are in the domain:
                 \*   "server" = kprapi.Server.setupRouter as it is (validator, ConfigMiddleware, handlers)
@@ -151,9 +152,10 @@ NoOp == [path |-> "", method |-> "", op |-> "", ro |-> "absent", params |-> <<>>
 Cont(next, rq) == [next |-> next, rq |-> rq, r |-> NoResp]
 Fin(rq, r) == [next |-> "done", rq |-> rq, r |-> r]
 
-\* rq = [m, w, h, stack, raw (segments of URL.EscapedPath()), dec (segments of URL.Path),
+\* ui = the process had SWAGGER_UI set when setupRouter ran (server mode; read once at construction)
+\* rq = [m, w, h, stack, ui, raw (segments of URL.EscapedPath()), dec (segments of URL.Path),
 \*       rp (segments of chi's RoutePath), op]      -- all of it is local to ONE request
-MkRq(m, p, w, h, stk) == [m |-> m, w |-> w, h |-> h, stack |-> stk, raw |-> RawSegs(p), dec |-> DecSegs(p),
+MkRq(m, p, w, h, stk, ui) == [m |-> m, w |-> w, h |-> h, stack |-> stk, ui |-> ui, raw |-> RawSegs(p), dec |-> DecSegs(p),
                           rp |-> RawSegs(p), op |-> NoOp]
 
 EmbT == {Tpl(EmbOrder[i]) : i \in DOMAIN EmbOrder}
@@ -168,12 +170,17 @@ ParamIdx(t, name) == CHOOSE i \in DOMAIN t.segs : t.segs[i].k = "param" /\ t.seg
 (* registers ("/v1", "/v1/", "/v1/*"); mountHandler sets RoutePath to "/"  *)
 (* + the wildcard.  ("/api.json" and "/metrics" are not operations of the  *)
 (* API document and are outside the request domain.)                       *)
+(* Server mode: when SWAGGER_UI is set, setupRouter additionally mounts a  *)
+(* static file server at "/ui/" -- documentation routes only: no operation *)
+(* becomes reachable under any other path.                                 *)
 (***************************************************************************)
 ChiMethods == {"CONNECT", "DELETE", "GET", "HEAD", "OPTIONS", "PATCH", "POST", "PUT", "TRACE"}
 
 OuterRouter(rq) ==
     IF rq.m \notin ChiMethods THEN {Fin(rq, Resp(405, "None", "", "outer"))}
     ELSE IF Len(rq.rp) >= 2 /\ rq.rp[1] = "v1" THEN {Cont("strip", [rq EXCEPT !.rp = Tail(@)])}
+    ELSE IF rq.ui /\ rq.stack = "server" /\ Len(rq.rp) >= 2 /\ rq.rp[1] = "ui"
+         THEN {Fin(rq, Resp(0, "None", "*", "ui"))} \* http.FileServer: whatever the directory holds
     ELSE {Fin(rq, Resp(404, "None", "404_page_not_fou", "outer"))}
 
 (***************************************************************************)
@@ -307,8 +314,8 @@ Run(stage, rq) == UNION { IF x.next = "done" THEN {x.r} ELSE Run(x.next, x.rq) :
 \* every response the code may give to method m, path p, headers/body h with write operations w on
 \* stack stk -- a function of the request alone: not of earlier requests on the same server
 \* instance (HttpGateHist) nor of requests in flight at the same time (HttpGateConc)
-Serve(m, p, w, h, stk) == Run("outer", MkRq(m, p, w, h, stk))
-ServeReq(r, w, stk) == Serve(r.m, SpellAll(BasePath(Tpl(r.t)), r.sps), w, r.h, stk)
+Serve(m, p, w, h, stk, ui) == Run("outer", MkRq(m, p, w, h, stk, ui))
+ServeReq(r, w, stk, ui) == Serve(r.m, SpellAll(BasePath(Tpl(r.t)), r.sps), w, r.h, stk, ui)
 TplNames == {Templates[i].name : i \in DOMAIN Templates}
 
 (***************************************************************************)
